@@ -26,8 +26,23 @@ def gen_prev(r, tier):
         elif k < 0.9:
             a = r.choice(['toggle', 'toggle+up', 'select-all', 'deselect-all'])
         else:
-            a = r.choice(['refresh-preview', 'toggle-preview+toggle-preview'])
+            a = r.choice(['refresh-preview', 'toggle-preview+toggle-preview', 'change-preview-window(up,40%)', 'change-preview-window(right,30%)',
+                          'change-preview-window(down,50%|right,50%)'])
         steps.append((r.choice([0, 0, 1, 2, 5, 15, 40, 150]), a))
+    if r.random() < 0.3:
+        # the template itself changes during the session (change-preview to one that uses {q}), the window
+        # options change afterwards, then the query is edited while the cursor stays where it is
+        kind = r.choice(['plain', 'plus'])
+        if r.random() < 0.6:
+            items = ['0 ' + r.choice(['0', '0', '0.15', 'inc'])]
+        pre = steps[:r.randrange(0, 3)]
+        mid = [(r.choice([0, 50, 150]), '@QUERY@')]
+        if r.random() < 0.8:
+            mid.append((r.choice([0, 50, 150]), r.choice(['change-preview-window(up,40%)', 'change-preview-window(right,30%)', 'change-preview-window(down)',
+                                                         'change-preview-window(hidden)+change-preview-window(right)'])))
+        for _ in range(r.randrange(1, 4)):
+            mid.append((r.choice([0, 30, 150]), 'change-query(%s)' % r.choice(['0', '', '0 ', '00', ' 0'])))
+        steps = pre + mid
     return dict(items=items, kind=kind, steps=steps)
 
 
@@ -56,10 +71,13 @@ def run_prev(fzf, tmp, sc):
         log = os.path.join(d, 'log')
         tdir = os.path.join(d, 'tmpdir')
         os.mkdir(tdir)
-        body = {'plain': 'echo "OUT $k"', 'query': 'echo "OUT $k" {q}', 'plus': 'echo "OUT $k"; echo SEL {+}', 'file': 'echo "OUT $k"; cat {f}'}[sc['kind']]
-        cmd = ('x={}; k=${x%% *}; d=${x#* }; echo "S $$ $k q="%s >> %s; %s; '
-               'if [ "$d" = inc ]; then for i in 1 2 3 4 5; do echo "line $i"; sleep 0.05; done; else exec sleep $d; fi'
-               % ('{q}' if sc['kind'] == 'query' else "''", log, body))
+        def mkcmd(kind):
+            body = {'plain': 'echo "OUT $k"', 'query': 'echo "OUT $k" {q}', 'plus': 'echo "OUT $k"; echo SEL {+}', 'file': 'echo "OUT $k"; cat {f}'}[kind]
+            return ('x={}; k=${x%% *}; d=${x#* }; echo "S $$ $k q="%s >> %s; %s; '
+                    'if [ "$d" = inc ]; then for i in 1 2 3 4 5; do echo "line $i"; sleep 0.05; done; else exec sleep $d; fi'
+                    % ('{q}' if kind == 'query' else "''", log, body))
+        cmd = mkcmd(sc['kind'])
+        kind = sc['kind']
         args = ['--preview', cmd, '--multi', '--preview-window', 'right,50%']
         s = Session(fzf, args, [i.encode() for i in sc['items']], tmp, width=100, height=24, env={'TMPDIR': tdir})
         max_alive = 0
@@ -70,6 +88,9 @@ def run_prev(fzf, tmp, sc):
             for delay, act in sc['steps']:
                 if delay:
                     time.sleep(delay / 1000.0)
+                if act == '@QUERY@':
+                    act = 'change-preview(%s)' % mkcmd('query')
+                    kind = 'query'
                 if not s.post(act):
                     return None, 'POST failed'
                 alive = [p for p, _, _ in read_log(log) if alive_state(p) not in (None, 'Z')]
@@ -100,7 +121,7 @@ def run_prev(fzf, tmp, sc):
             shown = 0
             if cur:
                 for _ in range(10):
-                    if any(('OUT %s' % curk) in row[45:] for row in s.capture()):
+                    if any(('OUT %s' % curk) in row for row in s.capture()):
                         shown = 1
                         break
                     time.sleep(0.1)
@@ -118,7 +139,7 @@ def run_prev(fzf, tmp, sc):
                 pass
         left = len(os.listdir(tdir))
         steps = ';'.join('%d:%s' % (dl, ','.join(str(x) for x in a.encode())) for dl, a in sc['steps'])
-        lhs = 'preview sess %s %d %s' % (sc['kind'], len(sc['items']), steps)
+        lhs = 'preview sess %s %d %s' % (kind, len(sc['items']), steps)
         return lhs + ' => %s %s %s %s %d %d %d %d %d' % (curk, enc_bytes(query.encode()), lastk, enc_bytes(lastq.encode()), shown, max_alive,
                                                          len(set(after)), left, len(entries)), None
     finally:
